@@ -356,7 +356,8 @@ class Main(Suite):
             return None
         names = [bytes.fromhex(x["name"]) for x in c["entries"]]
         if "rejects" in reason:
-            if "['hasDotgit']" in reason and any(any(ch >= 0x80 for ch in n) and n[:1] == b"." for n in names):
+            if ("['hasDotgit']" in reason or "['gitmodulesSymlink']" in reason) and \
+                    any(any(ch >= 0x80 for ch in n) and n[:1] == b"." and b"\\" not in n for n in names):
                 return "hfs-dotgit-malformed-tail"
             if "['gitmodulesSymlink']" in reason and any(x["mode"] == 0o120000 and b"\\" in bytes.fromhex(x["name"]) for x in c["entries"]):
                 return "gitmodules-symlink-after-backslash"
